@@ -116,7 +116,11 @@ func (b *builder) fields(owner string, fs []fieldDesc, resolvers bool) map[strin
 
 // build returns the schema or schema.New's refusal.  A description that cannot even be expressed as
 // Go values (a dangling reference, a missing query type) is reported as an `inexpressible` error.
-func build(d *desc, log *calls) (s *graphql.Schema, err error) {
+//
+// registerAll: list every described type in AdditionalTypes (the registry of the schema is then
+// exactly the description's type list); otherwise only d.Additional, as a developer would, and
+// schema.New registers what it reaches.
+func build(d *desc, log *calls, registerAll bool) (s *graphql.Schema, err error) {
 	defer func() {
 		if e := recover(); e != nil {
 			if ie, ok := e.(inexpressible); ok {
@@ -229,16 +233,22 @@ func build(d *desc, log *calls) (s *graphql.Schema, err error) {
 				Locations: []schema.DirectiveLocation{schema.DirectiveLocationField}}
 		}
 	}
-	// every described type is registered explicitly, so that erasing the last reference to a type that
-	// itself needs no feature does not silently unregister it
-	for _, t := range d.Types {
-		def.AdditionalTypes = append(def.AdditionalTypes, b.named[t.Name])
+	add := d.Additional
+	if registerAll {
+		add = d.allTypeNames()
+	}
+	for _, n := range add {
+		nt, ok := b.named[n]
+		if !ok {
+			panic(inexpressible("additional type is not described: " + n))
+		}
+		def.AdditionalTypes = append(def.AdditionalTypes, nt)
 	}
 	s, err = graphql.NewSchema(def)
 	if err != nil {
 		return nil, err
 	}
-	if len(s.NamedTypes()) != len(d.Types) {
+	if registerAll && len(s.NamedTypes()) != len(d.Types) {
 		panic(fmt.Sprintf("description lists %d types, schema registered %d", len(d.Types), len(s.NamedTypes())))
 	}
 	return s, nil
